@@ -1,4 +1,11 @@
 import XmpModel.Container
+import XmpModel.Lzw
+import XmpModel.PowerPacker
+import XmpModel.ZipFrame
+import XmpModel.LhaFrame
+import XmpModel.ArcfsFrame
+import XmpModel.LzxFrame
+import XmpModel.MmcmpFrame
 /-! Native driver for the C08 correspondence (line protocol, see tools/checks/c08.py).
     Runs the models `Xmp.Md5` and `Xmp.Container` on the cases the harness ran on the real code. -/
 open Xmp Xmp.Container
@@ -98,9 +105,105 @@ partial def loop (h : IO.FS.Stream) : IO Unit := do
   | ["pipe", hexa, hexp] =>
     let a := parseHex hexa
     let p := parseHex hexp
-    match decrunch (constEnv p) a with
+    match decrunch ((((constEnv p).withLha (fun _ _ _ _ => some p)).withArcfs (fun _ _ _ _ => some p)).withLzx crc32From (fun _ _ => some p) |>.withMmcmp (fun _ _ _ _ _ _ => some p)) a with
     | none => IO.println s!"p {(dispatch a).getD "none"} fail"
     | some s => IO.println s!"p {(dispatch a).getD "none"} ok {s.length} {hex64 (fnv s)} {toHex (Md5.md5sumLoop Gen.Depackers.md5ReadChunk s)}"
+  | ["lzw", hex] => IO.println s!"D {showOut (Lzw.unlzw (parseHex hex))}"
+  | ["lzwenc", mb, bm, ce, ml, hex] =>
+    let ce := ce.toNat?.getD 0
+    IO.println s!"E {toHex (Lzw.lzwEncode (mb.toNat?.getD 16) (bm == "1") (fun i => ce > 0 && i % ce == 0) (ml.toNat?.getD 65536) (parseHex hex))}"
+  | ["pp", hex] => IO.println s!"D {showOut (PowerPacker.decrunchPP (parseHex hex))}"
+  | ["ppenc", eff, hex] => IO.println s!"E {toHex (PowerPacker.ppEncode (parseHex eff) (parseHex hex))}"
+  | "pprender" :: eff :: its =>
+    -- items lits:mlen:moff:short ; prints the file written by ppRender and the payload the tokens stand for
+    let items := its.filterMap fun t => match t.splitOn ":" with
+      | [l, ml, mo, sh] => some ({ lits := parseHex l, mlen := ml.toNat?.getD 0, moff := mo.toNat?.getD 0,
+                                   short := sh == "1" } : PowerPacker.PPItem)
+      | _ => none
+    IO.println s!"E {toHex (PowerPacker.ppRender (parseHex eff) items)} {toHex (PowerPacker.ppExpand items)}"
+  | "arcenc" :: spark :: ms =>
+    -- members name:method:data (hex); method 3 members are packed by the Lean encoder rle90Enc
+    let mem := ms.filterMap fun t => match t.splitOn ":" with
+      | [n, m, d] =>
+        let data := parseHex d
+        let meth := m.toNat?.getD 2
+        some ({ name := parseHex n, method := meth, data := data,
+                toks := if meth % 128 = 3 then rle90Enc data else [] } : ArcMember)
+      | _ => none
+    IO.println s!"E {toHex (arcWrap crc16 mem (spark == "1"))}"
+  | ["lha", hexa, hexp] =>
+    -- "D dec": the result depends on a decoder that is a parameter of the model (LH1/5/6/7, MacBinary, …)
+    let p := parseHex hexp
+    let a := parseHex hexa
+    let r1 := unlha (fun _ _ _ _ => some p) a
+    let r2 := unlha (fun _ _ _ _ => none) a
+    IO.println (if r1 == r2 then s!"D {showOut r1}" else "D dec")
+  | ["gz", hexa, hexp] =>
+    -- "D dec": the header was parsed and the result depends on inflate (a parameter of the model)
+    let p := parseHex hexp
+    let a := parseHex hexa
+    let r1 := gunzip crc32 (fun _ => some p) a
+    let r2 := gunzip crc32 (fun _ => none) a
+    IO.println (if r1 == r2 then s!"D {showOut r1}" else "D dec")
+  | ["mmcmp", hexa, hexp] =>
+    let p := parseHex hexp
+    let a := parseHex hexa
+    let r1 := decrunchMmcmp (fun _ _ _ _ _ _ => some p) a
+    let r2 := decrunchMmcmp (fun _ _ _ _ _ _ => none) a
+    IO.println (if r1 == r2 then s!"D {showOut r1}" else "D dec")
+  | "mmcmpenc" :: bs =>
+    -- each argument is one block: its sub-block contents (hex) joined by ':'
+    let blocks := bs.map fun b => (b.splitOn ":").map parseHex
+    IO.println s!"E {toHex (mmcmpWrap blocks)}"
+  | ["lzx", hexa, hexp] =>
+    let p := parseHex hexp
+    let a := parseHex hexa
+    let r1 := lzxRead crc32From (fun _ _ => some p) a
+    let r2 := lzxRead crc32From (fun _ _ => none) a
+    IO.println (if r1 == r2 then s!"D {showOut r1}" else "D dec")
+  | "lzxenc" :: ms =>
+    let mem := ms.filterMap fun t => match t.splitOn ":" with
+      | [n, c, d] => some ({ name := parseHex n, comment := parseHex c, data := parseHex d } : LzxMember)
+      | _ => none
+    IO.println s!"E {toHex (lzxWrap crc32From mem)}"
+  | ["arcfs", hexa, hexp] =>
+    -- "D dec": the result depends on a decoder that is a parameter of the model (squeeze, crunch, …)
+    let p := parseHex hexp
+    let a := parseHex hexa
+    let r1 := arcfsRead crc16 (fun _ _ _ _ => some p) a
+    let r2 := arcfsRead crc16 (fun _ _ _ _ => none) a
+    IO.println (if r1 == r2 then s!"D {showOut r1}" else "D dec")
+  | "arcfsenc" :: pad :: ms =>
+    let mem := ms.filterMap fun t => match t.splitOn ":" with
+      | [n, m, d] =>
+        let data := parseHex d
+        let meth := m.toNat?.getD 130
+        some ({ name := parseHex n, method := meth, data := data,
+                toks := if meth % 128 = 3 then rle90Enc data else [] } : ArcfsMember)
+      | _ => none
+    IO.println s!"E {toHex (arcfsWrap crc16 mem (pad.toNat?.getD 0))}"
+  | ["lhalen", hexa, n] =>
+    -- header/walk structure only: the packed-method decoders are replaced by n zero bytes
+    let k := n.toNat?.getD 0
+    match unlha (fun _ _ _ len => if len = k then some (List.replicate k 0) else none) (parseHex hexa) with
+    | some o => IO.println s!"D ok {o.length}"
+    | none => IO.println "D fail"
+  | "lhaenc" :: ms =>
+    -- members name:level:osid:data (hex fields), written by the Lean writer lhaWrap (-lh0-)
+    let mem := ms.filterMap fun t => match t.splitOn ":" with
+      | [n, l, o, d] => some ({ name := parseHex n, level := l.toNat?.getD 0, osId := UInt8.ofNat (o.toNat?.getD 85),
+                                 data := parseHex d } : LhaMember)
+      | _ => none
+    IO.println s!"E {toHex (lhaWrap crc16 mem)}"
+  | "zipenc" :: lead :: clen :: ms =>
+    -- members name:method:extattr:extra:cextra:comment:data:cdata (hex fields), written by the Lean writer zipWrapC
+    -- with an archive comment of clen bytes
+    let mem := ms.filterMap fun t => match t.splitOn ":" with
+      | [n, m, ea, ex, cex, cm, d, cd] =>
+        some ({ name := parseHex n, method := m.toNat?.getD 0, extAttr := ea.toNat?.getD 0, extra := parseHex ex,
+                cextra := parseHex cex, comment := parseHex cm, data := parseHex d, cdata := parseHex cd } : ZipMember)
+      | _ => none
+    IO.println s!"E {toHex (zipWrapC crc32 (parseHex lead) mem (List.replicate (clen.toNat?.getD 0) 0x63))}"
   | _ => IO.println "?"
   loop h
 
